@@ -3579,8 +3579,9 @@ func (p *Parser) tryParseCluster() *ast.Cluster {
 	p.nextToken()
 	p.expect("IN")
 
+	// "INTERLEAVE IN parent" names a table called parent: the word is the keyword only in front of a table name.
 	var enforced bool
-	if p.Token.IsKeywordLike("PARENT") {
+	if p.Token.IsKeywordLike("PARENT") && p.lookaheadToken().Kind == token.TokenIdent {
 		p.nextToken()
 		enforced = true
 	}
@@ -4189,7 +4190,7 @@ func (p *Parser) parseAlterTableSet() ast.TableAlteration {
 		p.expect("IN")
 
 		var enforced bool
-		if p.Token.IsKeywordLike("PARENT") {
+		if p.Token.IsKeywordLike("PARENT") && p.lookaheadToken().Kind == token.TokenIdent {
 			p.nextToken()
 			enforced = true
 		}
